@@ -91,6 +91,10 @@ def run(prop, tier, replay_path=None):
         if prop == "C02":
             classes = [sd % NCLASSES, (sd + 3) % NCLASSES] if tier == "quick" else list(range(NCLASSES))
             layouts = list(range(NLAYOUTS))
+        elif tier == "quick" and prop == "C04":
+            # (the group family is 2 080 queries per database; databases are rebuilt after a query that kills a worker)
+            classes = [sd % NCLASSES, (sd + 2) % NCLASSES]
+            layouts = [0, 1, 3, 4]
         elif tier == "quick":
             classes = [(sd + k) % NCLASSES for k in (0, 2, 4)]
             layouts = [0, 1, 3, 4]
